@@ -272,3 +272,14 @@ package annotations
 //@   loop 3 invariant forall t string, fname string, p token.Pos :: mutHasP(mutables, t, fname, p) <==> (mfilesHit($seq1, $i1, t, fname, p, currentPkgPath) || mdeclsHit(file, $i, t, fname, p, currentPkgPath))
 //@   loop 4 invariant forall t string, fname string, p token.Pos :: mutHasP(mutables, t, fname, p) <==> (mfilesHit($seq1, $i1, t, fname, p, currentPkgPath) || mdeclsHit(file, $i3, t, fname, p, currentPkgPath) || mspecsHit(genDecl, $i, t, fname, p, currentPkgPath))
 //@   loop 5 invariant forall t string, fname string, p token.Pos :: mutHasP(mutables, t, fname, p) <==> (mfilesHit($seq1, $i1, t, fname, p, currentPkgPath) || mdeclsHit(file, $i3, t, fname, p, currentPkgPath) || mspecsHit(genDecl, $i4, t, fname, p, currentPkgPath) || (t == typeName && docHit(1, doc, $i, "", currentPkgPath) && typeis(typeSpec.Type, *ast.StructType) && fieldsHit(cast(typeSpec.Type, *ast.StructType), len(cast(typeSpec.Type, *ast.StructType).Fields.List), fname, p)))
+
+// queries for the @implements loaders (read-only)
+//@ func PackageAnnotations.ToInterfaceQuery
+//@   props C10
+//@   assigns nothing
+//@   loop 1 frame
+//@ func PackageAnnotations.ToTypeQuery
+//@   props C10
+//@   assigns nothing
+//@   loop 1 frame
+//@   loop 1 invariant dedupMap != nil && fresh(dedupMap)
